@@ -13,6 +13,11 @@ use std::path::{Path, PathBuf};
 pub enum Step {
     Git { tpl: u16 },
     Edit { ai: bool, file: u8, n: u8 },
+    /// a command that reads standard input (index into STDIN_TEMPLATES)
+    GitStdin { tpl: u16 },
+    /// grammar-generated invocation of a command git-ai hooks: command x flag subset x
+    /// revision/pathspec tail, in a generated invocation context (cwd, environment)
+    Gen { cmd: u8, flags: Vec<u8>, target: u8, tail: u8, ctx: u8 },
 }
 
 #[derive(Clone, Debug, Serialize, Deserialize)]
@@ -203,6 +208,117 @@ pub const TEMPLATES: &[&[&str]] = &[
     &["remote", "show", "-n", "origin"],
 ];
 
+/// (argv, bytes on stdin). `H` is replaced by the current HEAD object id.
+pub const STDIN_TEMPLATES: &[(&[&str], &str)] = &[
+    (&["reset", "--pathspec-from-file=-"], "f.txt\n"),
+    (&["reset", "-q", "--pathspec-from-file=-", "--pathspec-file-nul"], "f.txt\0g.txt\0"),
+    (&["reset", "HEAD~1", "--pathspec-from-file=-"], "g.txt\n"),
+    (&["add", "--pathspec-from-file=-"], "g.txt\n"),
+    (&["add", "--pathspec-from-file=-", "--pathspec-file-nul"], "f.txt\0sub/h.txt\0"),
+    (&["commit", "-F", "-"], "message from stdin\n\nbody line\n"),
+    (&["commit", "-a", "-F", "-"], "all, message from stdin\n"),
+    (&["commit", "--amend", "-F", "-"], "amended from stdin\n"),
+    (&["commit", "-m", "only listed", "--pathspec-from-file=-"], "f.txt\n"),
+    (&["commit", "--file=-", "--", "g.txt"], "one path\n"),
+    (&["checkout", "HEAD", "--pathspec-from-file=-"], "f.txt\n"),
+    (&["checkout", "--pathspec-from-file=-", "--pathspec-file-nul"], "g.txt\0"),
+    (&["restore", "--pathspec-from-file=-"], "f.txt\n"),
+    (&["restore", "--staged", "--pathspec-from-file=-"], "f.txt\ng.txt\n"),
+    (&["stash", "push", "--pathspec-from-file=-"], "f.txt\n"),
+    (&["rm", "--cached", "--pathspec-from-file=-"], "g.txt\n"),
+    (&["hash-object", "--stdin"], "some bytes\n"),
+    (&["hash-object", "-w", "--stdin"], "stored bytes\n"),
+    (&["update-ref", "--stdin"], "create refs/heads/viastdin H\n"),
+    (&["update-ref", "--stdin"], "delete refs/heads/viastdin\n"),
+    (&["cat-file", "--batch-check"], "HEAD\nHEAD:f.txt\nnosuch\n"),
+    (&["cat-file", "--batch"], "HEAD:g.txt\n"),
+    (&["check-ignore", "--stdin", "-v", "-n"], "f.txt\nsub/h.txt\n"),
+    (&["check-attr", "--stdin", "-a"], "f.txt\n"),
+    (&["notes", "add", "-f", "-F", "-", "HEAD"], "a user note from stdin\n"),
+    (&["tag", "-a", "-F", "-", "tstdin"], "annotation from stdin\n"),
+    (&["rev-list", "--stdin", "--count"], "HEAD\n"),
+    (&["diff-tree", "--stdin", "--name-only", "-r"], "H\n"),
+    (&["apply", "--check", "-"], "this is not a patch\n"),
+    (&["update-index", "--stdin", "--refresh"], "f.txt\n"),
+    (&["checkout-index", "--stdin", "-f"], "g.txt\n"),
+    (&["mktree"], ""),
+    (&["status", "--porcelain"], "ignored input\n"),
+    (&["commit", "-m", "stdin present but unused"], "noise\n"),
+    (&["stash"], "noise\n"),
+];
+
+/// flag pools of the grammar-generated steps: (command words, flags, targets, tails)
+pub struct Gram {
+    pub cmd: &'static [&'static str],
+    pub flags: &'static [&'static [&'static str]],
+    pub targets: &'static [&'static [&'static str]],
+    pub tails: &'static [&'static [&'static str]],
+}
+const NO: &[&[&str]] = &[&[]];
+const PATHS: &[&[&str]] = &[&[], &["--", "f.txt"], &["f.txt", "g.txt"], &["--", "nosuch"], &["sub"], &["--", "."], &["g.txt"], &[":/"], &["--", "sub/h.txt"]];
+pub const GRAMMAR: &[Gram] = &[
+    Gram { cmd: &["commit"], flags: &[&["-a"], &["-q"], &["-v"], &["--no-verify"], &["-s"], &["--allow-empty"], &["--allow-empty-message"], &["--amend"], &["--reset-author"], &["-o"], &["-i"], &["--author=A U Thor <author@example.com>"], &["--date=@1770000500 +0000"], &["--cleanup=verbatim"], &["--no-status"], &["--porcelain"], &["--short"], &["-uno"], &["--no-post-rewrite"], &["--trailer", "Reviewed-by: x"], &["-m", "generated message"], &["-m", "second paragraph"], &["--no-edit"], &["-C", "HEAD"], &["--fixup", "HEAD"], &["--squash", "HEAD"], &["-n"], &["--dry-run"]], targets: NO, tails: PATHS },
+    Gram { cmd: &["reset"], flags: &[&["--soft"], &["--mixed"], &["--hard"], &["--keep"], &["--merge"], &["-q"], &["--no-refresh"], &["-N"]], targets: &[&[], &["HEAD"], &["HEAD~1"], &["b1"], &["main"], &["nosuch"], &["HEAD~2"], &["ORIG_HEAD"]], tails: PATHS },
+    Gram { cmd: &["checkout"], flags: &[&["-q"], &["-f"], &["-m"], &["--detach"], &["-B", "b1"], &["-b", "nb1"], &["--ours"], &["--theirs"], &["--no-guess"], &["--orphan", "orph"], &["--ignore-other-worktrees"], &["--overwrite-ignore"]], targets: &[&[], &["main"], &["b1"], &["HEAD~1"], &["-"], &["nosuch"], &["b2"], &["HEAD"]], tails: PATHS },
+    Gram { cmd: &["switch"], flags: &[&["-q"], &["-f"], &["--discard-changes"], &["-m"], &["-c", "nb2"], &["-C", "b1"], &["--detach"], &["--guess"], &["--orphan", "orph2"]], targets: &[&[], &["main"], &["b1"], &["-"], &["HEAD~1"], &["nosuch"], &["b2"]], tails: NO },
+    Gram { cmd: &["restore"], flags: &[&["--staged"], &["--worktree"], &["-s", "HEAD~1"], &["--source=HEAD"], &["-q"], &["--ours"], &["--theirs"], &["-m"], &["--ignore-unmerged"], &["--overlay"]], targets: NO, tails: &[&["f.txt"], &["."], &["sub"], &["nosuch"], &["g.txt", "f.txt"], &["--", "g.txt"], &[], &[":/"]] },
+    Gram { cmd: &["stash", "push"], flags: &[&["-u"], &["-k"], &["--no-keep-index"], &["-q"], &["-m", "wip message"], &["-a"], &["-S"]], targets: NO, tails: PATHS },
+    Gram { cmd: &["stash", "pop"], flags: &[&["--index"], &["-q"]], targets: &[&[], &["stash@{0}"], &["stash@{1}"], &["1"], &["nosuch"]], tails: NO },
+    Gram { cmd: &["stash", "apply"], flags: &[&["--index"], &["-q"]], targets: &[&[], &["stash@{0}"], &["stash@{1}"], &["0"]], tails: NO },
+    Gram { cmd: &["stash"], flags: &[&["-u"], &["-k"], &["-q"], &["-a"]], targets: &[&[], &["save", "old style message"], &["branch", "fromstash"], &["drop", "stash@{0}"], &["create"], &["show", "--stat"]], tails: NO },
+    Gram { cmd: &["merge"], flags: &[&["--no-ff"], &["--ff-only"], &["--squash"], &["--no-commit"], &["-q"], &["--stat"], &["-n"], &["-m", "generated merge message"], &["-s", "ours"], &["-X", "theirs"], &["-X", "ours"], &["--no-edit"], &["--autostash"], &["--allow-unrelated-histories"]], targets: &[&["b1"], &["b2"], &["main"], &["nosuch"], &["b1", "b2"], &["HEAD~1"], &[]], tails: NO },
+    Gram { cmd: &["rebase"], flags: &[&["-q"], &["--onto", "main"], &["--keep-empty"], &["-f"], &["--autostash"], &["--no-autostash"], &["-X", "theirs"], &["--stat"], &["-i"], &["--committer-date-is-author-date"], &["--reapply-cherry-picks"], &["-r"], &["--root"], &["--no-verify"], &["--empty=drop"], &["--apply"], &["--merge"]], targets: &[&["main"], &["b1"], &["HEAD~1"], &["HEAD~2"], &["nosuch"], &["b2"], &["main", "b1"], &[]], tails: NO },
+    Gram { cmd: &["cherry-pick"], flags: &[&["-n"], &["-x"], &["--allow-empty"], &["--keep-redundant-commits"], &["-X", "theirs"], &["--ff"], &["-s"], &["--no-edit"], &["--empty=drop"]], targets: &[&["b1"], &["b2"], &["b1~1..b1"], &["main"], &["nosuch"], &["b1", "b2"], &["HEAD"]], tails: NO },
+    Gram { cmd: &["revert"], flags: &[&["-n"], &["--no-edit"], &["-s"], &["-X", "theirs"]], targets: &[&["HEAD"], &["HEAD~1"], &["b1"], &["nosuch"], &["HEAD~1..HEAD"]], tails: NO },
+    Gram { cmd: &["pull"], flags: &[&["--rebase"], &["--ff-only"], &["--no-rebase"], &["--autostash"], &["-q"], &["--no-commit"], &["--squash"], &["--no-ff"], &["--rebase=merges"], &["--no-edit"], &["--tags"], &["--prune"]], targets: &[&["origin", "main"], &["origin"], &[], &["origin", "b1"], &["nosuchremote"], &["R", "main"]], tails: NO },
+    Gram { cmd: &["push"], flags: &[&["-f"], &["-u"], &["--all"], &["--tags"], &["-q"], &["--dry-run"], &["--force-with-lease"], &["--porcelain"], &["--no-verify"], &["--follow-tags"], &["--atomic"], &["--prune"]], targets: &[&["origin", "main"], &["origin", "HEAD"], &["origin"], &["origin", "b1"], &["origin", "HEAD:refs/heads/pushed"], &["origin", ":pushed"], &["R", "HEAD:refs/heads/viaurl"], &[], &["nosuchremote", "main"]], tails: NO },
+    Gram { cmd: &["fetch"], flags: &[&["--all"], &["--prune"], &["-q"], &["--tags"], &["--dry-run"], &["--no-tags"], &["-f"], &["--porcelain"]], targets: &[&["origin"], &["origin", "main"], &[], &["R", "main"], &["origin", "main:refs/heads/fetched"], &["nosuchremote"]], tails: NO },
+    Gram { cmd: &["add"], flags: &[&["-A"], &["-u"], &["-N"], &["-f"], &["-n"], &["-v"], &["--ignore-errors"], &["--renormalize"], &["--chmod=+x"]], targets: NO, tails: PATHS },
+    Gram { cmd: &["rm"], flags: &[&["-f"], &["--cached"], &["-r"], &["-q"], &["-n"], &["--ignore-unmatch"]], targets: NO, tails: &[&["f.txt"], &["g.txt"], &["sub"], &["nosuch"], &["--", "sub/h.txt"]] },
+    Gram { cmd: &["mv"], flags: &[&["-f"], &["-k"], &["-n"], &["-v"]], targets: NO, tails: &[&["f.txt", "renamed.txt"], &["renamed.txt", "f.txt"], &["g.txt", "sub/"], &["sub/g.txt", "g.txt"], &["nosuch", "x"], &["sub", "sub2"], &["sub2", "sub"]] },
+    Gram { cmd: &["clean"], flags: &[&["-f"], &["-d"], &["-n"], &["-x"], &["-q"]], targets: NO, tails: &[&[], &["sub"], &["--", "f.txt"]] },
+    Gram { cmd: &["worktree"], flags: &[], targets: &[&["list"], &["add", "../wt1", "-b", "wtb"], &["remove", "--force", "../wt1"], &["prune"]], tails: NO },
+];
+
+/// invocation contexts of generated steps: (cwd is `sub/`, environment)
+pub const CONTEXTS: &[(bool, &[(&str, &str)])] = &[
+    (false, &[]),
+    (false, &[]),
+    (false, &[]),
+    (true, &[]),
+    (false, &[("GIT_INDEX_FILE", ".git/alt-index")]),
+    (false, &[("GIT_DIR", ".git")]),
+    (false, &[("GIT_WORK_TREE", "."), ("GIT_DIR", ".git")]),
+    (false, &[("GIT_CONFIG_COUNT", "1"), ("GIT_CONFIG_KEY_0", "core.abbrev"), ("GIT_CONFIG_VALUE_0", "9")]),
+    (false, &[("GIT_OPTIONAL_LOCKS", "0")]),
+    (false, &[("GIT_LITERAL_PATHSPECS", "1")]),
+    (false, &[("GIT_PREFIX", "")]),
+    (false, &[("GIT_REFLOG_ACTION", "custom action")]),
+];
+
+pub fn gen_argv(cmd: u8, flags: &[u8], target: u8, tail: u8) -> Vec<&'static str> {
+    let g = &GRAMMAR[cmd as usize % GRAMMAR.len()];
+    let mut v: Vec<&'static str> = g.cmd.to_vec();
+    let mut seen = std::collections::BTreeSet::new();
+    for f in flags {
+        if g.flags.is_empty() {
+            break;
+        }
+        let i = *f as usize % g.flags.len();
+        if seen.insert(i) {
+            v.extend_from_slice(g.flags[i]);
+        }
+    }
+    v.extend_from_slice(g.targets[target as usize % g.targets.len()]);
+    v.extend_from_slice(g.tails[tail as usize % g.tails.len()]);
+    // a commit needs a message unless it reuses one (no editor in the sandbox beyond `true`)
+    if g.cmd == ["commit"] && !v.iter().any(|a| ["-m", "--no-edit", "-C", "--fixup", "--squash"].contains(a)) {
+        v.insert(1, "generated");
+        v.insert(1, "-m");
+    }
+    v
+}
+
 /// commands with a git-ai hook (non-triviality)
 fn is_hooked(t: &[&str]) -> bool {
     let cmd = t.iter().find(|a| !a.starts_with('-') && **a != "." && **a != ".git" && **a != "sub");
@@ -221,6 +337,9 @@ pub fn strategy() -> impl Strategy<Value = Case> {
         // the workhorses more often, so that states are rich
         3 => prop_oneof![Just(0u16), Just(5u16), Just(6u16), Just(21u16), Just(23u16), Just(29u16), Just(30u16)].prop_map(|tpl| Step::Git { tpl }),
         4 => (any::<bool>(), 0u8..3, 0u8..6).prop_map(|(ai, file, n)| Step::Edit { ai, file, n }),
+        2 => (0u16..STDIN_TEMPLATES.len() as u16).prop_map(|tpl| Step::GitStdin { tpl }),
+        6 => (0u8..GRAMMAR.len() as u8, proptest::collection::vec(0u8..32, 0..4), 0u8..9, 0u8..9, 0u8..CONTEXTS.len() as u8)
+            .prop_map(|(cmd, flags, target, tail, ctx)| Step::Gen { cmd, flags, target, tail, ctx }),
     ];
     (any::<u8>(), proptest::collection::vec(step, 5..=25)).prop_map(|(hooks, steps)| Case { hooks, steps })
 }
@@ -318,6 +437,13 @@ fn digest(t: &mut Twin) -> serde_json::Value {
     let index = g(t, &["ls-files", "-s"]);
     let status = g(t, &["status", "--porcelain=v2", "--untracked-files=all"]);
     let stash = g(t, &["stash", "list", "--format=%H %gs"]);
+    let alt_index = if repo.join(".git/alt-index").exists() {
+        let r = repo.clone();
+        t.sb.real_git_full(&r, &["ls-files", "-s"], None, &[("GIT_INDEX_FILE", ".git/alt-index")]).out()
+    } else {
+        String::new()
+    };
+    let worktrees = g(t, &["worktree", "list", "--porcelain"]);
     let mut files = BTreeMap::new();
     walk(&repo, &repo, &mut files);
     let mut state = BTreeMap::new();
@@ -362,7 +488,7 @@ fn digest(t: &mut Twin) -> serde_json::Value {
     let v = json!({
         "HEAD": [head_sym, head], "refs": refs, "index": index, "status": status, "stash": stash, "files": files,
         "in_progress": state, "user_hooks_log": hooks_log, "remote_refs": rrefs, "local_config": config,
-        "hooks_dir": hooks_dir, "clone_heads": clone_heads,
+        "hooks_dir": hooks_dir, "clone_heads": clone_heads, "alt_index": alt_index, "worktrees": worktrees,
     });
     // the two sandboxes live in different directories
     let root = t.sb.root.to_string_lossy().into_owned();
@@ -406,6 +532,10 @@ fn edit(t: &mut Twin, ai: bool, file: u8, n: u8, step: usize, is_wrapper: bool) 
 }
 
 fn run_git(t: &mut Twin, tpl: &[&str]) -> Out {
+    run_git_full(t, tpl, None, false, &[])
+}
+
+fn run_git_full(t: &mut Twin, tpl: &[&str], stdin: Option<&[u8]>, in_sub: bool, env: &[(&str, &str)]) -> Out {
     let remote = t.remote.to_string_lossy().into_owned();
     let clone = format!("../clone{}", t.clones);
     let args: Vec<String> = tpl
@@ -420,8 +550,8 @@ fn run_git(t: &mut Twin, tpl: &[&str]) -> Out {
         t.clones += 1;
     }
     let a: Vec<&str> = args.iter().map(|s| s.as_str()).collect();
-    let r = t.repo.clone();
-    t.sb.git_in_notick(&r, &a)
+    let r = if in_sub && t.repo.join("sub").is_dir() { t.repo.join("sub") } else { t.repo.clone() };
+    t.sb.git_in_notick_full(&r, &a, stdin, env)
 }
 
 pub fn run(case: &Case) -> CaseReport {
@@ -449,10 +579,37 @@ pub fn run(case: &Case) -> CaseReport {
                 }
                 continue;
             }
-            Step::Git { tpl } => {
-                let t = TEMPLATES[*tpl as usize % TEMPLATES.len()];
-                let oa = run_git(&mut a, t);
-                let ob = run_git(&mut b, t);
+            Step::Git { .. } | Step::GitStdin { .. } | Step::Gen { .. } => {
+                let head_now = a.sb.real_git(&a.repo.clone(), &["rev-parse", "-q", "--verify", "HEAD"]).out_trim();
+                let mut stdin_owned: Option<Vec<u8>> = None;
+                let mut in_sub = false;
+                let mut env: &[(&str, &str)] = &[];
+                let tv: Vec<&str> = match st {
+                    Step::Git { tpl } => TEMPLATES[*tpl as usize % TEMPLATES.len()].to_vec(),
+                    Step::GitStdin { tpl } => {
+                        let (argv, input) = STDIN_TEMPLATES[*tpl as usize % STDIN_TEMPLATES.len()];
+                        stdin_owned = Some(input.replace('H', &head_now).into_bytes());
+                        rep.class("stdin-fed-command");
+                        argv.to_vec()
+                    }
+                    Step::Gen { cmd, flags, target, tail, ctx } => {
+                        let c = CONTEXTS[*ctx as usize % CONTEXTS.len()];
+                        in_sub = c.0;
+                        env = c.1;
+                        if in_sub {
+                            rep.class("context:sub-directory");
+                        }
+                        if let Some((k, _)) = env.first() {
+                            rep.class(format!("context:env {k}"));
+                        }
+                        rep.class("grammar-generated-command");
+                        gen_argv(*cmd, flags, *target, *tail)
+                    }
+                    Step::Edit { .. } => unreachable!(),
+                };
+                let t: &[&str] = &tv;
+                let oa = run_git_full(&mut a, t, stdin_owned.as_deref(), in_sub, env);
+                let ob = run_git_full(&mut b, t, stdin_owned.as_deref(), in_sub, env);
                 rep.count("commands", 1);
                 let hooked = is_hooked(t);
                 let invalid = oa.code != 0;
@@ -465,7 +622,13 @@ pub fn run(case: &Case) -> CaseReport {
                 if invalid {
                     rep.count("commands_failing_in_git", 1);
                 }
-                let ctx = format!("step {i} `git {}`", t.join(" "));
+                let ctx = format!(
+                    "step {i} `git {}`{}{}{}",
+                    t.join(" "),
+                    stdin_owned.as_ref().map(|b| format!(" <stdin {:?}>", String::from_utf8_lossy(b))).unwrap_or_default(),
+                    if in_sub { " (cwd sub/)" } else { "" },
+                    if env.is_empty() { String::new() } else { format!(" env {env:?}") }
+                );
                 if oa.code != ob.code {
                     rep.violate(
                         "C06:exit-status-differs",
@@ -527,7 +690,7 @@ pub fn spec() -> Spec<Case> {
     Spec {
         id: "C06",
         level: "exploration",
-        rule: "twin sandboxes (A: real git, B: the git-ai wrapper) built identically - three files, a bare remote, configured aliases (plain, recursive, shell), a generated subset of user hooks (pre-commit, commit-msg, post-commit, post-checkout, post-merge, pre-rebase, post-rewrite; pre-commit optionally failing every other time) that log their arguments outside the repository - then 5-25 steps: git command lines drawn from a table of ~170 templates (porcelain, plumbing, global options, aliases, remote operations, and deliberately invalid invocations) and human/agent file edits applied to both trees (agent checkpoints in B only). After every command: exit status equal, stdout byte-equal (one notes-fetch line after clone removed), and the state digest equal: HEAD, refs outside refs/notes/ai*, index, status v2, every working-tree file, stash, in-progress-operation files, the user hooks' log, remote refs, local config, hook directory, clone heads. non-trivial = a hooked command ran with agent work pending, or the command failed in git, or used a global option/alias; distinct by case hash".into(),
+        rule: "twin sandboxes (A: real git, B: the git-ai wrapper) built identically - three files, a bare remote, configured aliases (plain, recursive, shell), a generated subset of user hooks (pre-commit, commit-msg, post-commit, post-checkout, post-merge, pre-rebase, post-rewrite; pre-commit optionally failing every other time) that log their arguments outside the repository - then 5-25 steps: git command lines drawn from (a) a table of ~170 templates (porcelain, plumbing, global options, aliases, remote operations, and deliberately invalid invocations), (b) a table of 35 commands that read standard input (--pathspec-from-file=- with and without NUL separation for reset/add/commit/checkout/restore/stash/rm, commit -F -, hash-object --stdin, update-ref --stdin, cat-file --batch, notes/tag -F -, ...; the same bytes are fed to both twins), (c) a flag grammar for every command git-ai hooks (commit, reset, checkout, switch, restore, stash push/pop/apply/..., merge, rebase, cherry-pick, revert, pull, push, fetch, add, rm, mv, clean, worktree: random subsets of 4-28 real flags x revision targets x pathspec tails) run in a generated invocation context (repository root or sub-directory; GIT_INDEX_FILE, GIT_DIR, GIT_WORK_TREE, GIT_CONFIG_COUNT, GIT_LITERAL_PATHSPECS, GIT_REFLOG_ACTION ... in the environment), and human/agent file edits applied to both trees (agent checkpoints in B only). After every command: exit status equal, stdout byte-equal (one notes-fetch line after clone removed), and the state digest equal: HEAD, refs outside refs/notes/ai*, index, status v2, every working-tree file, stash, in-progress-operation files, the user hooks' log, remote refs, local config, hook directory, clone heads, the alternate index when one was used, linked worktrees. non-trivial = a hooked command ran with agent work pending, or the command failed in git, or used a global option/alias; distinct by case hash".into(),
         cases_quick: 252,
         cases_thorough: 3000,
         shrink_iters: 60,
